@@ -5,6 +5,7 @@
 // and the probe logs (cycle, canonical delta, value) are identical. This is the statement's equivalent form as well:
 // applying a captured delta to a copy of the pre-tick state yields the post-tick state and re-capturing yields the same delta.
 #include "tsshapes.h"
+#include <hgraph/types/record_replay.h>
 using namespace hgraph;
 using namespace tsshapes;
 
@@ -199,6 +200,26 @@ namespace
         catch (const std::exception &e) { exc = e.what(); }
         g = nullptr;
         if (!exc.empty()) { out.violation = "run threw: " + exc; return out; }
+        // the recording brought back as STATE (what a recovering component does at its start): folding the recorded deltas up to the start
+        // time into an empty copy must give the value the original held at that time
+        {
+            std::string expected = "<none>";
+            for (auto &t : r1.probe) if (t.t <= start && t.valid) expected = t.value;
+            std::string got = "<none>";
+            try
+            {
+                GlobalState st;
+                if (recording.has_value()) st.view().set(REC_KEY, recording);
+                const Value v = record_replay::recorded_seed_resolver(st.view(), "nodes.record.x", ts_type<S>(), MIN_ST + MIN_TD * start);
+                if (v.has_value()) got = canon(v.to_string());
+            }
+            catch (const std::exception &e) { got = std::string{"threw: "} + e.what(); }
+            if (got != expected)
+            {
+                out.violation = "the recording folded back into state as of cycle " + std::to_string(start) + " is " + got + " but the original held " + expected + "\n original:" + show(r1.probe);
+                return out;
+            }
+        }
         out.ticks = r1.probe.size();
         std::ostringstream sig;
         sig << "M" << start << Sh::name << "#";
@@ -274,6 +295,8 @@ namespace
             if (shape == "tss") return run_shape_mem<ShapeTSS>(script, g_mem_start, shape);
             if (shape == "tsd") return run_shape_mem<ShapeDictI>(script, g_mem_start, shape);
             if (shape == "tsl") return run_shape_mem<ShapeTSL>(script, g_mem_start, shape);
+            if (shape == "tsds") return run_shape_mem<ShapeDictS>(script, g_mem_start, shape);
+            if (shape == "tsdb") return run_shape_mem<ShapeDictB>(script, g_mem_start, shape);
             throw verif::HarnessError("memory mode: unknown shape " + shape);
         }
         if (shape == "ts") return run_shape<ShapeTS>(script);
@@ -341,6 +364,8 @@ void verif_enumerate(verif::Ctx &ctx)
             {"tss", {"+1", "+2", "-1", "c"}, 1, th ? 5 : 4},
             {"tsd", {"s1=5", "s1=6", "s2=5", "e1"}, 1, th ? 5 : 4},
             {"tsl", {"0=1", "0=2", "1=1"}, 1, th ? 5 : 4},
+            {"tsds", {"a1:1", "a1:2", "r1:1", "e1", "a2:1"}, 1, th ? 5 : 4},       // dictionaries whose values are structured: a key that leaves and returns
+            {"tsdb", {"1a=5", "1b=6", "1a=7", "e1", "2a=5"}, 1, th ? 5 : 4},
         };
         for (auto &sp : mem)
         {
